@@ -42,12 +42,14 @@ struct Shape {
     ext_fail: bool,
     /// authentication only: the stored signature counters sit at u32::MAX
     max_counter: bool,
+    /// authentication only (CTAP level): neither presence nor verification asked, none reported
+    silent: bool,
 }
 
 impl Shape {
     fn json(&self) -> Value {
         json!({"op": if self.reg {"registration"} else {"authentication"}, "level": if self.client {"client"} else {"ctap"},
-            "list": self.list, "prf_extension": self.prf, "counters": self.counters, "rk": self.rk, "credential_without_prf_secret": self.no_secret, "extension_step_fails": self.ext_fail, "stored_counter_at_u32_max": self.max_counter})
+            "list": self.list, "prf_extension": self.prf, "counters": self.counters, "rk": self.rk, "credential_without_prf_secret": self.no_secret, "extension_step_fails": self.ext_fail, "stored_counter_at_u32_max": self.max_counter, "silent": self.silent})
     }
     fn all() -> Vec<Shape> {
         let mut v = Vec::new();
@@ -60,12 +62,12 @@ impl Shape {
                                 if !reg && rk {
                                     continue;
                                 }
-                                v.push(Shape { reg, client, list, prf, counters, rk, no_secret: false, ext_fail: false, max_counter: false });
+                                v.push(Shape { reg, client, list, prf, counters, rk, no_secret: false, ext_fail: false, max_counter: false, silent: false });
                                 if !reg && prf {
-                                    v.push(Shape { reg, client, list, prf, counters, rk, no_secret: true, ext_fail: false, max_counter: false });
+                                    v.push(Shape { reg, client, list, prf, counters, rk, no_secret: true, ext_fail: false, max_counter: false, silent: false });
                                 }
                                 if reg && prf {
-                                    v.push(Shape { reg, client, list, prf, counters, rk, no_secret: false, ext_fail: true, max_counter: false });
+                                    v.push(Shape { reg, client, list, prf, counters, rk, no_secret: false, ext_fail: true, max_counter: false, silent: false });
                                 }
                             }
                         }
@@ -75,7 +77,12 @@ impl Shape {
         }
         for client in [false, true] {
             for list in [false, true] {
-                v.push(Shape { reg: false, client, list, prf: false, counters: true, rk: false, no_secret: false, ext_fail: false, max_counter: true });
+                v.push(Shape { reg: false, client, list, prf: false, counters: true, rk: false, no_secret: false, ext_fail: false, max_counter: true, silent: false });
+            }
+        }
+        for list in [false, true] {
+            for counters in [false, true] {
+                v.push(Shape { reg: false, client: false, list, prf: false, counters, rk: false, no_secret: false, ext_fail: false, max_counter: false, silent: true });
             }
         }
         v
@@ -136,6 +143,9 @@ fn apply_plan(rig: &Rig, plan: &PlanSpec) {
 
 fn run_one(sh: &Shape, plan: &PlanSpec) -> Obs {
     let rig = Rig::ok(Disc::Full);
+    if sh.silent {
+        rig.uv.set_outcome(crate::collab::UvOutcome::Check { presence: false, verification: false });
+    }
     let seeded_id = seed_store(&rig, sh);
     apply_plan(&rig, plan);
     let before = rig.store.snapshot();
@@ -227,7 +237,7 @@ fn run_one(sh: &Shape, plan: &PlanSpec) -> Obs {
             let req = mc_request(RP, b"new-user", &[1u8; 32], vec![pk_param(coset::iana::Algorithm::ES256)], sh.list.then(|| vec![descriptor(&[0xEE; 24])]), ext_make, sh.rk, true, !sh.ext_fail);
             poll_n_then_drop(auth.make_credential(req), plan.cancel_after.unwrap_or(3)).map(|r| r.map(|x| x.auth_data.to_vec()).map_err(|e| status_byte_ref(&e)))
         } else {
-            let req = ga_request(RP, &[2u8; 32], sh.list.then(|| vec![descriptor(&seeded_id)]), ext_get, true, true);
+            let req = ga_request(RP, &[2u8; 32], sh.list.then(|| vec![descriptor(&seeded_id)]), ext_get, !sh.silent, !sh.silent);
             poll_n_then_drop(auth.get_assertion(req), plan.cancel_after.unwrap_or(3)).map(|r| r.map(|x| x.auth_data.to_vec()).map_err(|e| status_byte_ref(&e)))
         };
         polls = plan.cancel_after.unwrap_or(3);
@@ -243,7 +253,7 @@ fn run_one(sh: &Shape, plan: &PlanSpec) -> Obs {
             let req = mc_request(RP, b"new-user", &[1u8; 32], vec![pk_param(coset::iana::Algorithm::ES256)], sh.list.then(|| vec![descriptor(&[0xEE; 24])]), ext_make, sh.rk, true, !sh.ext_fail);
             drive!(auth.make_credential(req)).map(|r| r.map(|x| x.auth_data.to_vec()).map_err(|e| status_byte_ref(&e)))
         } else {
-            let req = ga_request(RP, &[2u8; 32], sh.list.then(|| vec![descriptor(&seeded_id)]), ext_get, true, true);
+            let req = ga_request(RP, &[2u8; 32], sh.list.then(|| vec![descriptor(&seeded_id)]), ext_get, !sh.silent, !sh.silent);
             drive!(auth.get_assertion(req)).map(|r| {
                 r.map(|x| {
                     used_id = x.credential.as_ref().map(|d| d.id.to_vec());
@@ -566,12 +576,92 @@ fn shipped_store_registrations(rep: &mut Report, args: &Args, only: Option<u64>)
     }
 }
 
+/// Registrations through the U2F entry point (caller-supplied key handles of 0..300 bytes), over the
+/// reference store (optionally refusing the save) and the shipped stores: an error leaves the store
+/// as it was, a success means the store holds the credential.
+fn u2f_registrations(rep: &mut Report, args: &Args, only: Option<u64>) {
+    use passkey_authenticator::{MemoryStore, U2fApi};
+    use passkey_types::{u2f::RegisterRequest, Passkey};
+    let n = args.size(90, 1200) as u64;
+    for k in 0..n {
+        let index = 45_000_000 + k;
+        if only.map_or(false, |o| o != index) {
+            continue;
+        }
+        rep.eval();
+        let mut rng = Rng::derive(args.seed, "c07u2f", k);
+        let hl = *rng.pick(&[0usize, 1, 16, 64, 255, 256, 257, 300]);
+        let handle = rng.bytes(hl);
+        let kind = rng.below(3);
+        let fault = kind == 0 && rng.chance(1, 3);
+        let names = ["reference store", "MemoryStore", "Option<Passkey>"];
+        let case = json!({"index": index, "entry_point": "U2fApi::register", "store": names[kind], "key_handle_len": hl, "store_refuses_the_save": fault});
+        rep.nontrivial(fnv_str(&format!("u2freg|{kind}|{hl}|{fault}")));
+        let req = RegisterRequest { challenge: rng.arr32(), application: rng.arr32() };
+        let existing = seeded_passkey(&mut rng, "other.example", &[0xE1; 16], Some(b"x"), Some(2), None).0;
+        let ids_of = |v: &[Passkey]| -> Vec<Vec<u8>> { v.iter().map(|p| p.credential_id.to_vec()).collect() };
+        let (result, before, after): (Result<Result<(), String>, (String, String)>, Vec<Vec<u8>>, Vec<Vec<u8>>) = match kind {
+            0 => {
+                let rig = Rig::ok(Disc::Full);
+                rig.store.insert_raw(existing.clone());
+                if fault {
+                    rig.store.set_fault(Kind::Save, 0, 0x28);
+                }
+                let before = ids_of(&rig.store.passkeys());
+                let mut auth = rig.auth(AuthCfg::default());
+                let r = catch(|| block_on(auth.register(req, &handle)).map(|_| ()).map_err(|e| format!("{e:?}")));
+                (r, before, ids_of(&rig.store.passkeys()))
+            }
+            1 => {
+                let mut m = MemoryStore::new();
+                m.insert(existing.credential_id.to_vec(), existing.clone());
+                let before: Vec<Vec<u8>> = m.keys().cloned().collect();
+                let uv = crate::collab::RecUv::ok(crate::collab::Log::new());
+                let mut auth = mk_auth(m, uv, AuthCfg::default());
+                let r = catch(|| block_on(auth.register(req, &handle)).map(|_| ()).map_err(|e| format!("{e:?}")));
+                let after = auth.store().keys().cloned().collect();
+                (r, before, after)
+            }
+            _ => {
+                let before = vec![existing.credential_id.to_vec()];
+                let uv = crate::collab::RecUv::ok(crate::collab::Log::new());
+                let mut auth = mk_auth(Some(existing.clone()), uv, AuthCfg::default());
+                let r = catch(|| block_on(auth.register(req, &handle)).map(|_| ()).map_err(|e| format!("{e:?}")));
+                let after = auth.store().iter().map(|p| p.credential_id.to_vec()).collect();
+                (r, before, after)
+            }
+        };
+        match result {
+            Err((sig, d)) => rep.violate(&format!("u2f registration {sig}"), d, case),
+            Ok(Err(e)) => {
+                rep.count("u2f_reg_failed");
+                let mut a = after.clone();
+                let mut b = before.clone();
+                a.sort();
+                b.sort();
+                if a != b {
+                    rep.violate("u2f: failed registration changed the store", format!("error {e}; {} credential(s) before, {} after", before.len(), after.len()), case);
+                }
+            }
+            Ok(Ok(())) => {
+                rep.count("u2f_reg_ok");
+                if fault {
+                    rep.violate("u2f: store error while saving was turned into success", String::new(), case.clone());
+                }
+                if !after.contains(&handle) {
+                    rep.violate("u2f: registration succeeded although the store does not hold the new credential", format!("store holds {:?}", after.iter().map(|i| hex_short(i)).collect::<Vec<_>>()), case);
+                }
+            }
+        }
+    }
+}
+
 pub fn run(args: &Args) -> Report {
     let mut rep = Report::new(
         "C07",
         &args.tier,
         args.seed,
-        "for each request shape (registration/authentication x client/CTAP level x exclude/allow list x PRF extension x counters x rk): a clean run to learn the store-call sequence, then every faultable store call failing with each status byte of the tier's set, all pairs of calls failing with 4 codes, and cancellation after every number of polls with collaborators yielding 1 and 2 times per call, plus cancellation while the store lock is held by another task; authentication shapes with the stored counters at u32::MAX; registrations (1-2 in a row) through the shipped stores and their lock wrappers, empty or already occupied; distinct by (shape, fault set or cancellation step, yield plan); non-trivial when the fault or cancellation point was actually reached",
+        "for each request shape (registration/authentication x client/CTAP level x exclude/allow list x PRF extension x counters x rk): a clean run to learn the store-call sequence, then every faultable store call failing with each status byte of the tier's set, all pairs of calls failing with 4 codes, and cancellation after every number of polls with collaborators yielding 1 and 2 times per call, plus cancellation while the store lock is held by another task; authentication shapes with the stored counters at u32::MAX; registrations (1-2 in a row) through the shipped stores and their lock wrappers, empty or already occupied; silent assertions; U2F registrations with key handles of 0-300 bytes over the reference store (also refusing the save) and the shipped stores; distinct by (shape, fault set or cancellation step, yield plan); non-trivial when the fault or cancellation point was actually reached",
     );
     rep.exhaustive = true;
     rep.assumptions.push("get_info of the store cannot fail (it returns no Result), so only lookup, save and update are faulted".into());
@@ -732,6 +822,7 @@ pub fn run(args: &Args) -> Report {
     }
     if only.is_none() || only.map_or(false, |o| (40_000_000..50_000_000).contains(&o)) {
         shipped_store_registrations(&mut rep, args, only);
+        u2f_registrations(&mut rep, args, only);
     }
     rep.obs("shapes", json!(Shape::all().len()));
     rep.obs("status_bytes_per_call", json!(codes(args.thorough()).len()));
